@@ -4,8 +4,10 @@ package main
 import (
 	"verifharness/rt"
 
+	_ "verifharness/mon/c01"
 	_ "verifharness/mon/c02"
 	_ "verifharness/mon/c04"
+	_ "verifharness/mon/c05"
 	_ "verifharness/mon/c06"
 	_ "verifharness/mon/c07"
 	_ "verifharness/mon/c08"
